@@ -154,6 +154,10 @@ func checkL2First(c *core.Ctx, rule string) {
 }
 
 func runC02(c *core.Ctx) {
+	defer func() {
+		c.Share(map[string]string{"R4.11": "R2.8"}, runC04) // an L1 append that changes the flags makes L1 differ from L2
+		c.Share(map[string]string{"R3.1": "R2.7"}, runC03)  // a TTL/value change under the shared lock interleaves with a get's back-fill: L1 keeps what L2 dropped
+	}()
 	c.Rule("R2.1", "every L1 operation that changes a value, presence or TTL is dominated by the success of an L2 operation on the same key in the same command", 18)
 	c.Rule("R2.2", "the batch port never populates L1: its L1 operations are limited to get, replace, append, prepend, touch and delete", 9)
 	c.Rule("R2.3", "a refused L1 write after an L2 success is compensated by an L1 delete of the same key before the success reply (or the error is returned)", 10)
